@@ -41,7 +41,7 @@ SOFT = {
     'C13': dict(twins=['C13.cli', 'C13.e2e', 'C13.func'], floor=3, soft=['C13.args', 'C13.nofilter', 'C13.window'], strong=['C13.window']),
     'C14': dict(twins=['C14.cli', 'C14.e2e'], floor=3, soft=['C14.const', 'C14.pair', 'C14.enum'], strong=['C14.enum', 'C14.const', 'C14.pair']),
     'C16': dict(twins=['C16.func'], floor=2, soft=['C16.window'], strong=['C16.window']),
-    'C17': dict(twins=['C17.e2e', 'C17.cli'], floor=3, soft=['C17.gate', 'C17.missing', 'C17.len', 'C17.leaf'], strong=['C17.missing', 'C17.leaf:compare_samples', 'C17.leaf:sequence-codec']),
-    'C18': dict(twins=['C18.e2e', 'C18.cli'], floor=2, soft=['C18.gt', 'C18.gate', 'C18.dedup', 'C18.leaf'], strong=['C18.gate', 'C18.leaf:compare_samples', 'C18.leaf:sequence-codec']),
+    'C17': dict(twins=['C17.e2e', 'C17.cli'], floor=3, soft=['C17.gate', 'C17.missing', 'C17.len', 'C17.leaf'], strong=['C17.missing', 'C17.leaf:compare_samples', 'C17.leaf:sequence-codec', 'C17.leaf:entry-func']),
+    'C18': dict(twins=['C18.e2e', 'C18.cli'], floor=2, soft=['C18.gt', 'C18.gate', 'C18.dedup', 'C18.leaf'], strong=['C18.gate', 'C18.leaf:compare_samples', 'C18.leaf:sequence-codec', 'C18.leaf:entry-func']),
     'C20': dict(twins=['C20.func', 'C20.cli'], floor=4, soft=['C20.iter', 'C20.window', 'C20.index', 'C20.grad'], strong=['C20.index:writer', 'C20.window', 'C20.grad']),
 }
